@@ -47,6 +47,7 @@ import Restful.Lemmas.StateShape
 import Restful.Lemmas.TieImpPath
 import Restful.Lemmas.TieImpMatch
 import Restful.Lemmas.TieImpAllowed
+import Restful.Lemmas.TieImpJsrSel
 namespace Restful
 namespace Props
 variable (E : ReEnv)
@@ -305,3 +306,5 @@ end Restful
 -- also: Restful.TieImp.T2.tokenize_path
 -- also: Restful.TieImp.match_tokens
 -- also: Restful.TieImp.compute_allowed_methods
+-- also: Restful.TieImp.jsr_select_routes
+-- also: Restful.TieImp.jsr_detect_dispatcher
